@@ -158,6 +158,11 @@ SortAsc(S) == IF S = {} THEN <<>>
 
 Eligible(o, tp) == IF o.side = "BACK" THEN tp >= o.price ELSE tp <= o.price
 
+\* an odd reported volume at a price the order is eligible for: half of it is a fraction of a penny
+\* and binary floating point decides the rounding (recorded data; generated scenarios trade even pence)
+TradedTie(o, traded) == \E tp \in DOMAIN traded : Eligible(o, tp) /\ traded[tp] % 2 = 1
+OddLevels(o, d) == Cardinality({tp \in DOMAIN d : Eligible(o, tp) /\ d[tp] % 2 = 1})
+
 \* _process_traded over the price levels; returns <<order', traded'>>
 RECURSIVE ProcTraded(_, _, _, _)
 ProcTraded(o, traded, prices, pt) ==
